@@ -981,9 +981,13 @@ def _get_unit_data_from_expr(unit_expr, unit_symbol_lut):
     if isinstance(unit_expr, Pow):
         unit_data = _get_unit_data_from_expr(unit_expr.args[0], unit_symbol_lut)
         power = unit_expr.args[1]
-        if not (power.is_number and power.is_finite):
+        if not (power.is_number and power.is_finite and power.is_real):
             raise UnitParseError(f"Invalid unit expression '{unit_expr}'.")
-        conv = float(unit_data[0] ** power)
+        try:
+            conv = float(unit_data[0] ** power)
+        except TypeError:
+            # a negative scale raised to a fractional power is complex
+            raise UnitParseError(f"Invalid unit expression '{unit_expr}'.")
         unit = unit_data[1] ** power
         return (conv, unit)
 
